@@ -1448,55 +1448,61 @@ func E2AccumulatorAdvance(c *core.Ctx, r *core.Report) {
 					id, ok := as.Lhs[0].(*ast.Ident)
 					return ok && core.ObjOf(info, id) == acc
 				}
-				// must-advance over the statement list; returns the first unexcused path that does not
-				var must func(stmts []ast.Stmt) (bool, ast.Node)
-				must = func(stmts []ast.Stmt) (bool, ast.Node) {
-					var firstBad ast.Node
-					for _, st := range stmts {
-						if advances(st) {
-							return true, nil
+				// must-advance over all paths of a case body (continuation-passing, so that an early
+				// continue/break ends a path); returns the first unexcused path that does not advance
+				must := func(stmts []ast.Stmt) (bool, ast.Node) {
+					var bad ast.Node
+					failed := false
+					var walk func(stmts []ast.Stmt, done bool, last ast.Node, k func(done bool, last ast.Node))
+					walk = func(stmts []ast.Stmt, done bool, last ast.Node, k func(bool, ast.Node)) {
+						if failed {
+							return
 						}
+						if len(stmts) == 0 {
+							k(done, last)
+							return
+						}
+						st, rest := stmts[0], stmts[1:]
+						next := func(d bool, l ast.Node) { walk(rest, d, l, k) }
 						switch x := st.(type) {
-						case *ast.BlockStmt:
-							if ok, _ := must(x.List); ok {
-								return true, nil
+						case *ast.BranchStmt:
+							if !done {
+								failed, bad = true, last
+								if bad == nil {
+									bad = x
+								}
 							}
+							return
+						case *ast.ReturnStmt:
+							return
+						case *ast.BlockStmt:
+							walk(x.List, done, last, next)
+							return
 						case *ast.IfStmt:
 							ex := exhaust(x.Cond)
-							thenOK, thenBad := must(x.Body.List)
-							if ex == 1 {
-								thenOK = true
-							}
-							elseOK, elseBad := false, ast.Node(x)
+							walk(x.Body.List, done || ex == 1, x, next)
 							switch e := x.Else.(type) {
+							case nil:
+								next(done || ex == -1, x)
 							case *ast.BlockStmt:
-								elseOK, elseBad = must(e.List)
-								if elseBad == nil {
-									elseBad = e
-								}
+								walk(e.List, done || ex == -1, x, next)
 							case *ast.IfStmt:
-								elseOK, elseBad = must([]ast.Stmt{e})
-							}
-							if ex == -1 {
-								elseOK = true
-							}
-							if thenOK && elseOK {
-								return true, nil
-							}
-							if firstBad == nil {
-								if !thenOK {
-									if thenBad != nil {
-										firstBad = thenBad
-									} else {
-										firstBad = x
-									}
+								if ex == -1 {
+									next(true, x)
 								} else {
-									firstBad = elseBad
+									walk([]ast.Stmt{e}, done, x, next)
 								}
 							}
+							return
 						}
+						walk(rest, done || advances(st), last, k)
 					}
-					return false, firstBad
+					walk(stmts, false, nil, func(done bool, last ast.Node) {
+						if !done && !failed {
+							failed, bad = true, last
+						}
+					})
+					return !failed, bad
 				}
 				for _, cs := range sw.Body.List {
 					cc := cs.(*ast.CaseClause)
@@ -1534,4 +1540,301 @@ func E2AccumulatorAdvance(c *core.Ctx, r *core.Report) {
 	}
 	r.Count("E2.accumulator-cases", n)
 	r.Floor("E2.accumulator-cases", 4)
+}
+
+// E2RecordPreserved: Reverse emits a record for every segment it reads.
+func E2RecordPreserved(c *core.Ctx, r *core.Report) {
+	r.Rule("E2.record-preserved", "Path.Reverse rebuilds the path record by record. For each of the drawing commands (LineTo, QuadTo, CubeTo, ArcTo) every path through one iteration of its loop — through any `if` before the command switch, the matching case, and up to the end of the body or a `continue` — appends a record to the output. Conditions on the command are evaluated for that command; a test that two points are equal is false for lines and arcs (a built path holds no zero-length line or arc) and may go either way for Béziers; anything else may go either way. Skipping a segment whose end equals its start drops closed Bézier loops, which have length, area and winding: Reverse is then no involution and Length/Bounds change")
+	p := c.MustPkg("")
+	info := p.TypesInfo
+	fd := core.MustFuncDecl(p, "Path.Reverse")
+	r.Func("canvas.Path.Reverse")
+	sws := cmdSwitches(p, fd)
+	if len(sws) != 1 {
+		r.Fail("E2.record-preserved", "canvas.Path.Reverse|command switch", c.Pos(fd.Pos()), fmt.Sprintf("expected one command switch, found %d", len(sws)))
+		return
+	}
+	sw := sws[0]
+	// the loop whose body contains the switch
+	var loop *ast.ForStmt
+	ast.Inspect(fd.Body, func(m ast.Node) bool {
+		if f, ok := m.(*ast.ForStmt); ok && f.Body.Pos() <= sw.Pos() && sw.End() <= f.Body.End() {
+			loop = f
+		}
+		return true
+	})
+	if loop == nil {
+		r.Fail("E2.record-preserved", "canvas.Path.Reverse|command loop", c.Pos(fd.Pos()), "the loop around the command switch was not found")
+		return
+	}
+	// the command variable: the switch tag
+	tag, _ := core.Unparen(sw.Tag).(*ast.Ident)
+	var cmdObj types.Object
+	if tag != nil {
+		cmdObj = core.ObjOf(info, tag)
+	}
+	// the output: the returned path
+	var out types.Object
+	ast.Inspect(fd.Body, func(m ast.Node) bool {
+		if rs, ok := m.(*ast.ReturnStmt); ok && len(rs.Results) == 1 {
+			if id, ok := core.Unparen(rs.Results[0]).(*ast.Ident); ok {
+				if o := core.ObjOf(info, id); o != nil && o != recvObj(info, fd) {
+					out = o
+				}
+			}
+		}
+		return true
+	})
+	if cmdObj == nil || out == nil {
+		r.Fail("E2.record-preserved", "canvas.Path.Reverse|command variable and output path", c.Pos(fd.Pos()), "not identified")
+		return
+	}
+	emits := func(st ast.Stmt) bool {
+		found := false
+		ast.Inspect(st, func(k ast.Node) bool {
+			switch x := k.(type) {
+			case *ast.FuncLit:
+				return false
+			case *ast.AssignStmt:
+				for i, l := range x.Lhs {
+					if id := core.RootIdent(l); id != nil && core.ObjOf(info, id) == out && i < len(x.Rhs) {
+						if call, ok := core.Unparen(x.Rhs[i]).(*ast.CallExpr); ok {
+							if f, ok := call.Fun.(*ast.Ident); ok && f.Name == "append" {
+								found = true
+							}
+						}
+					}
+				}
+			case *ast.CallExpr:
+				if se, ok := x.Fun.(*ast.SelectorExpr); ok {
+					if id, ok := core.Unparen(se.X).(*ast.Ident); ok && core.ObjOf(info, id) == out {
+						switch se.Sel.Name {
+						case "LineTo", "QuadTo", "CubeTo", "ArcTo", "Close":
+							found = true
+						}
+					}
+				}
+			}
+			return true
+		})
+		return found
+	}
+	n := 0
+	for _, K := range []string{"LineToCmd", "QuadToCmd", "CubeToCmd", "ArcToCmd"} {
+		K := K
+		env := opEnv(info, cmdObj, K, func(e ast.Expr) tri {
+			// a built path holds no zero-length line or arc (LineTo/ArcTo drop them), so a test that
+			// two points are equal is false for those commands; Béziers may return to their start
+			if K == "LineToCmd" || K == "ArcToCmd" {
+				if call, ok := e.(*ast.CallExpr); ok {
+					if se, ok := call.Fun.(*ast.SelectorExpr); ok && se.Sel.Name == "Equals" && len(call.Args) == 1 {
+						return tFalse
+					}
+				}
+			}
+			return tUnknown
+		})
+		// continuation-passing walk over the paths of one iteration; bad collects the first path
+		// that ends (end of the body, continue, break) without having emitted
+		bad := ""
+		var walk func(stmts []ast.Stmt, emitted bool, conds []string, k func(emitted bool, conds []string))
+		walk = func(stmts []ast.Stmt, emitted bool, conds []string, k func(bool, []string)) {
+			if bad != "" {
+				return
+			}
+			if len(stmts) == 0 {
+				k(emitted, conds)
+				return
+			}
+			st, rest := stmts[0], stmts[1:]
+			next := func(em bool, cs []string) { walk(rest, em, cs, k) }
+			switch x := st.(type) {
+			case *ast.BranchStmt:
+				if !emitted {
+					bad = strings.Join(append(append([]string{}, conds...), x.Tok.String()), " && ")
+				}
+				return
+			case *ast.ReturnStmt:
+				return
+			case *ast.BlockStmt:
+				walk(x.List, emitted, conds, next)
+				return
+			case *ast.IfStmt:
+				v := evalBool(info, x.Cond, env)
+				if v != tFalse {
+					walk(x.Body.List, emitted, append(append([]string{}, conds...), c.Src(x.Cond)), next)
+				}
+				if v != tTrue {
+					cs := append(append([]string{}, conds...), "!("+c.Src(x.Cond)+")")
+					switch e := x.Else.(type) {
+					case nil:
+						next(emitted, cs)
+					case *ast.BlockStmt:
+						walk(e.List, emitted, cs, next)
+					case *ast.IfStmt:
+						walk([]ast.Stmt{e}, emitted, cs, next)
+					}
+				}
+				return
+			case *ast.SwitchStmt:
+				if x == sw {
+					var body []ast.Stmt
+					matched := false
+					for _, cs := range x.Body.List {
+						cc := cs.(*ast.CaseClause)
+						for _, kc := range core.CaseConsts(info, cc) {
+							if kc == K {
+								body, matched = cc.Body, true
+							}
+						}
+					}
+					if !matched {
+						for _, cs := range x.Body.List {
+							if cc := cs.(*ast.CaseClause); cc.List == nil {
+								body = cc.Body
+							}
+						}
+					}
+					walk(body, emitted, append(append([]string{}, conds...), "case "+K), next)
+					return
+				}
+			}
+			walk(rest, emitted || emits(st), conds, k)
+		}
+		walk(loop.Body.List, false, nil, func(em bool, cs []string) {
+			if !em && bad == "" {
+				bad = strings.Join(append(append([]string{}, cs...), "(end of the loop body)"), " && ")
+			}
+		})
+		n++
+		key := fmt.Sprintf("canvas.Path.Reverse|%s|a record is emitted on every path", K)
+		if bad != "" {
+			r.Fail("E2.record-preserved", key, c.Pos(loop.Pos()), "for "+K+" the iteration can end on the path `"+bad+"` without appending a record to the reversed path: that segment (e.g. a Bézier that returns to its start point) is dropped")
+		} else {
+			r.OK("E2.record-preserved", key, c.Pos(loop.Pos()), "")
+		}
+	}
+	r.Count("E2.reverse-commands", n)
+	r.Floor("E2.reverse-commands", 4)
+}
+
+// E2PenReread: replace re-reads the pen position from the data after it rewrote the path.
+func E2PenReread(c *core.Ctx, r *core.Report) {
+	r.Rule("E2.pen-reread", "Path.replace (the driver of Flatten, ReplaceArcs and XMonotone) rewrites the path while it walks it: it truncates the data, joins the replacement and joins the rest back, and Join/LineTo may merge the first remaining line into the previous one, so the only reliable source for the start point of the next command is the data just before the cursor. Every path through one iteration therefore ends with the assignment `start = Point{p.d[i-3], p.d[i-2]}` (receiver's data, the loop's cursor), after the last statement that changes the path or the cursor, and no `continue` skips it. A start point remembered from before the rest was joined back makes the next curve flatten from a point that is no longer on the path")
+	p := c.MustPkg("")
+	info := p.TypesInfo
+	fd := core.MustFuncDecl(p, "Path.replace")
+	r.Func("canvas.Path.replace")
+	recv := recvObj(info, fd)
+	var loop *ast.ForStmt
+	for _, st := range fd.Body.List {
+		if f, ok := st.(*ast.ForStmt); ok {
+			loop = f
+		}
+	}
+	key := "canvas.Path.replace|every iteration ends by re-reading the pen from the data before the cursor"
+	if loop == nil || recv == nil {
+		r.Fail("E2.pen-reread", key, c.Pos(fd.Pos()), "the command loop was not found")
+		return
+	}
+	// cursor: the variable of the loop's init statement
+	var cursor types.Object
+	if as, ok := loop.Init.(*ast.AssignStmt); ok && len(as.Lhs) == 1 {
+		if id, ok := as.Lhs[0].(*ast.Ident); ok {
+			cursor = core.ObjOf(info, id)
+		}
+	}
+	isReread := func(st ast.Stmt) bool {
+		as, ok := st.(*ast.AssignStmt)
+		if !ok || as.Tok != token.ASSIGN || len(as.Lhs) != 1 || len(as.Rhs) != 1 {
+			return false
+		}
+		lid, ok := as.Lhs[0].(*ast.Ident)
+		if !ok {
+			return false
+		}
+		lo := core.ObjOf(info, lid)
+		if lo == nil || (lo.Pos() > loop.Pos() && lo.Pos() < loop.End()) {
+			return false
+		}
+		cl, ok := core.Unparen(as.Rhs[0]).(*ast.CompositeLit)
+		if !ok || len(cl.Elts) != 2 {
+			return false
+		}
+		for k, el := range cl.Elts {
+			ie, ok := core.Unparen(el).(*ast.IndexExpr)
+			if !ok || !core.IsPathDataSel(info, ie.X) {
+				return false
+			}
+			if id := core.RootIdent(ie.X); id == nil || core.ObjOf(info, id) != recv {
+				return false
+			}
+			be, ok := core.Unparen(ie.Index).(*ast.BinaryExpr)
+			if !ok || be.Op != token.SUB {
+				return false
+			}
+			id, ok := core.Unparen(be.X).(*ast.Ident)
+			if !ok || core.ObjOf(info, id) != cursor {
+				return false
+			}
+			if v, ok := core.ConstInt(info, be.Y); !ok || v != int64(3-k) {
+				return false
+			}
+		}
+		return true
+	}
+	var lastOK func(stmts []ast.Stmt) (bool, token.Pos)
+	lastOK = func(stmts []ast.Stmt) (bool, token.Pos) {
+		if len(stmts) == 0 {
+			return false, token.NoPos
+		}
+		last := stmts[len(stmts)-1]
+		if isReread(last) {
+			return true, token.NoPos
+		}
+		if is, ok := last.(*ast.IfStmt); ok && is.Else != nil {
+			ok1, p1 := lastOK(is.Body.List)
+			if !ok1 {
+				if p1 == token.NoPos {
+					p1 = is.Body.Pos()
+				}
+				return false, p1
+			}
+			switch e := is.Else.(type) {
+			case *ast.BlockStmt:
+				ok2, p2 := lastOK(e.List)
+				if !ok2 && p2 == token.NoPos {
+					p2 = e.Pos()
+				}
+				return ok2, p2
+			case *ast.IfStmt:
+				return lastOK([]ast.Stmt{e})
+			}
+		}
+		return false, last.Pos()
+	}
+	ok, where := lastOK(loop.Body.List)
+	hasContinue := token.NoPos
+	ast.Inspect(loop.Body, func(m ast.Node) bool {
+		if _, isLit := m.(*ast.FuncLit); isLit {
+			return false
+		}
+		if b, isB := m.(*ast.BranchStmt); isB && b.Tok == token.CONTINUE {
+			hasContinue = b.Pos()
+		}
+		return true
+	})
+	switch {
+	case !ok:
+		if where == token.NoPos {
+			where = loop.Pos()
+		}
+		r.Fail("E2.pen-reread", key, c.Pos(where), "an iteration of replace's loop can end here without `start = Point{p.d[i-3], p.d[i-2]}` as its last statement: the start point of the next command is then not taken from the rewritten data (Join may have merged the next line into the replacement's last line)")
+	case hasContinue != token.NoPos:
+		r.Fail("E2.pen-reread", key, c.Pos(hasContinue), "a `continue` skips the re-read of the pen position")
+	default:
+		r.OK("E2.pen-reread", key, c.Pos(loop.Pos()), "")
+	}
+	r.Count("E2.pen-reread-loops", 1)
+	r.Floor("E2.pen-reread-loops", 1)
 }
